@@ -154,16 +154,9 @@ fn k_fp_consts() {
 /// the Montgomery reduction out of the SAT problem where only DISTINCTNESS of encodings matters
 fn stub_to_repr(f: &Fp) -> FpRepr {
   let mut b = [0u8; 24];
-  let mut i = 0;
-  while i < 3 {
-    let w = f.0[i].to_le_bytes();
-    let mut j = 0;
-    while j < 8 {
-      b[8 * i + j] = w[j];
-      j += 1;
-    }
-    i += 1;
-  }
+  b[0..8].copy_from_slice(&f.0[0].to_le_bytes());
+  b[8..16].copy_from_slice(&f.0[1].to_le_bytes());
+  b[16..24].copy_from_slice(&f.0[2].to_le_bytes());
   FpRepr(b)
 }
 
@@ -250,30 +243,143 @@ fn k_recover_selection() {
 }
 
 /// Vec<u8>::from(&Share) = x.to_repr() ++ y[0].to_repr() ++ ... (structure only; to_repr itself is
-/// T-field), for y of length 0..2
+/// T-field), for y of length 0..1
 #[kani::proof]
 #[kani::unwind(4)]
 #[kani::stub(<Fp as crate::ff::PrimeField>::to_repr, stub_to_repr)]
 fn k_vec_from_share() {
-  let n: usize = kani::any();
-  kani::assume(n <= 2);
+  let has_y: bool = kani::any();
   let x = any_fp();
   let y0 = any_fp();
-  let y1 = any_fp();
   let mut y = Vec::new();
-  if n >= 1 { y.push(y0); }
-  if n >= 2 { y.push(y1); }
+  if has_y { y.push(y0); }
   let s = Share { x, y };
   let v: Vec<u8> = Vec::from(&s);
-  assert!(v.len() == 24 * (n + 1));
-  let ex = stub_to_repr(&x).0;
-  let e0 = stub_to_repr(&y0).0;
-  let e1 = stub_to_repr(&y1).0;
-  let mut i = 0;
-  while i < 24 {
-    assert!(v[i] == ex[i]);
-    if n >= 1 { assert!(v[24 + i] == e0[i]); }
-    if n >= 2 { assert!(v[48 + i] == e1[i]); }
-    i += 1;
+  assert!(v.len() == if has_y { 48 } else { 24 });
+  assert!(v[0..24] == stub_to_repr(&x).0);
+  if has_y { assert!(v[24..48] == stub_to_repr(&y0).0); }
+}
+
+// ---------------------------------------------------------------------------------------------
+// Bounded TWINS of functions Verus proves unboundedly: they decide a function whose changed text is
+// no longer within Verus' reach, and provide concrete counterexamples for Verus failures.
+
+fn limbs_of(b: &[u8]) -> [u64; 3] {
+  let mut l = [0u64; 3];
+  let mut w = [0u8; 8];
+  w.copy_from_slice(&b[0..8]);
+  l[0] = u64::from_le_bytes(w);
+  w.copy_from_slice(&b[8..16]);
+  l[1] = u64::from_le_bytes(w);
+  w.copy_from_slice(&b[16..24]);
+  l[2] = u64::from_le_bytes(w);
+  l
+}
+
+/// Share::try_from against the layout (24-byte LE elements, canonical range, trailing partial element
+/// ignored) for every byte string of length <= 50 (x, at most one y, partial tail)
+#[kani::proof]
+#[kani::unwind(4)]
+fn k_share_try_from() {
+  let buf: [u8; 50] = kani::any();
+  let n: usize = kani::any();
+  kani::assume(n <= 50);
+  let s = &buf[..n];
+  let r = Share::try_from(s);
+  if n < 24 {
+    assert!(r.is_err());
+    return;
+  }
+  let x_ok = lt(&limbs_of(&s[0..24]), &P);
+  let has_y = n >= 48;
+  let y_ok = !has_y || lt(&limbs_of(&s[24..48]), &P);
+  assert!(r.is_ok() == (x_ok && y_ok));
+  if let Ok(sh) = r {
+    let mut xb = [0u8; 24];
+    xb.copy_from_slice(&s[0..24]);
+    let xr: Option<Fp> = Fp::from_repr(FpRepr(xb)).into();
+    assert!(sh.x.0 == xr.unwrap().0);
+    assert!(sh.y.len() == if has_y { 1 } else { 0 });
+    if has_y {
+      let mut yb = [0u8; 24];
+      yb.copy_from_slice(&s[24..48]);
+      let yr: Option<Fp> = Fp::from_repr(FpRepr(yb)).into();
+      assert!(sh.y[0].0 == yr.unwrap().0);
+    }
+  }
+}
+
+/// deterministic RNG: the d-th (0-based) Fp::random draw consumes three next_u64 calls and yields the
+/// element with limbs [101 + d, 0, 0] (Fp::random uses the masked raw limbs and accepts them since
+/// they are below p, so its rejection loop runs exactly once)
+struct SeqRng { calls: u64 }
+impl rand::RngCore for SeqRng {
+  fn next_u32(&mut self) -> u32 { self.next_u64() as u32 }
+  fn next_u64(&mut self) -> u64 {
+    let k = self.calls;
+    self.calls += 1;
+    if k % 3 == 0 { 101 + k / 3 } else { 0 }
+  }
+  fn fill_bytes(&mut self, dest: &mut [u8]) { let _ = dest; }
+  fn try_fill_bytes(&mut self, dest: &mut [u8]) -> Result<(), rand::Error> { let _ = dest; Ok(()) }
+}
+
+/// random_polynomial: k coefficients (at least one), last = s, coefficient j is the j-th draw, in order
+#[kani::proof]
+#[kani::unwind(6)]
+fn k_random_polynomial() {
+  let k: u32 = kani::any();
+  kani::assume(k <= 4);
+  let s = any_fp();
+  let mut rng = SeqRng { calls: 0 };
+  let p = random_polynomial(s, k, &mut rng);
+  let n = if k >= 1 { k as usize } else { 1 };
+  assert!(p.len() == n);
+  assert!(p[n - 1].0 == s.0);
+  let mut j = 0;
+  while j + 1 < n {
+    assert!(p[j].0 == [101 + j as u64, 0, 0]);
+    j += 1;
+  }
+  assert!(rng.calls == 3 * (n as u64 - 1));
+}
+
+/// Sharks::dealer_rng: one polynomial per complete 24-byte element, refused iff some element is out
+/// of range, constant terms = decoded elements, every other coefficient a separate draw in order;
+/// secrets of length <= 50 (two elements + tail), thresholds 0..3
+#[kani::proof]
+#[kani::unwind(6)]
+fn k_dealer_rng() {
+  let buf: [u8; 50] = kani::any();
+  let n: usize = kani::any();
+  kani::assume(n <= 50);
+  let t: u32 = kani::any();
+  kani::assume(t <= 3);
+  let secret = &buf[..n];
+  let mut rng = SeqRng { calls: 0 };
+  let sharks = crate::Sharks(t);
+  let r = sharks.dealer_rng(secret, &mut rng);
+  let cnt = n / 24;
+  let ok0 = cnt < 1 || lt(&limbs_of(&secret[0..24]), &P);
+  let ok1 = cnt < 2 || lt(&limbs_of(&secret[24..48]), &P);
+  assert!(r.is_ok() == (ok0 && ok1));
+  if let Ok(ev) = r {
+    assert!(ev.x.0 == [0u64; 3]);
+    assert!(ev.polys.len() == cnt);
+    let m = if t >= 1 { t as usize } else { 1 };
+    let mut i = 0;
+    while i < cnt {
+      assert!(ev.polys[i].len() == m);
+      let mut cb = [0u8; 24];
+      cb.copy_from_slice(&secret[24 * i..24 * i + 24]);
+      let c: Option<Fp> = Fp::from_repr(FpRepr(cb)).into();
+      assert!(ev.polys[i][m - 1].0 == c.unwrap().0);
+      let mut j = 0;
+      while j + 1 < m {
+        assert!(ev.polys[i][j].0 == [101 + (i * (m - 1) + j) as u64, 0, 0]);
+        j += 1;
+      }
+      i += 1;
+    }
   }
 }
